@@ -33,6 +33,12 @@ def run(r):
         raise tlc.TLCError('simulation config violates %s' % s2.violated)
     r.transitions += s2.generated
     r.replay(drv, s2.behaviours, 'FuncSignal', 'simulate (aliasing focus)', parallel=16, factory=FuncSignalDriver)
+    # windows cut from the own grid that share an edge with it, followed by filters (the buffers with_times must set)
+    s3 = tlc.simulate('FuncSignalMC', 'FuncSignal_edge.cfg', 'C06/sim3', num=1500 if thorough else 320, depth=7, seed=r.seed + 8)
+    if s3.violated:
+        raise tlc.TLCError('simulation config violates %s' % s3.violated)
+    r.transitions += s3.generated
+    r.replay(drv, s3.behaviours, 'FuncSignal', 'simulate (edge-sharing windows)', parallel=16, factory=FuncSignalDriver)
     # D2 regression: as-is model (set_buffers keeps the cache) must give the NoStale counterexample,
     # and the repaired code must not follow it
     w = r.model_check('FuncSignalMC', 'FuncSignal_asis.cfg', expect_violation='NoStale')
